@@ -62,7 +62,14 @@ def outcome_digest(cls, data):
     except Exception as e:  # pylint: disable=broad-except
         return 'raised:' + type(e).__name__
     state = re.sub(r' at 0x[0-9a-fA-F]+', '', repr((consumed, structural.deep_state(obj, strict_types=True))))   # no addresses
-    return 'ok:%d:%s' % (consumed, hashlib.sha1(state.encode('utf-8', 'replace')).hexdigest()[:20])
+    composed = 'none'
+    if hasattr(obj, 'compose'):
+        # what the parsed object composes to is part of the outcome (encodings remembered per class, per key, per name)
+        try:
+            composed = hashlib.sha1(bytes(obj.compose())).hexdigest()[:12]
+        except Exception as e:  # pylint: disable=broad-except
+            composed = 'raised-' + type(e).__name__
+    return 'ok:%d:%s:%s' % (consumed, hashlib.sha1(state.encode('utf-8', 'replace')).hexdigest()[:20], composed)
 
 
 def child_main(argv):
